@@ -55,6 +55,10 @@ theorem wc_spin {s s' : State} {r : Role} (hc : CInv s) (ha : WA s) (hi : WC s) 
   wc_step2 hc ha hi h [stepSpin]
 
 set_option maxHeartbeats 4000000 in
+theorem wc_deadline {s s' : State} {r : Role} (hc : CInv s) (ha : WA s) (hi : WC s) (h : stepDeadline s r = some s') : WC s' := by
+  wc_step2 hc ha hi h [stepDeadline]
+
+set_option maxHeartbeats 4000000 in
 theorem wc_ldClosed {s s' : State} {r : Role} (hc : CInv s) (ha : WA s) (hi : WC s) (h : stepLdClosed s r = some s') : WC s' := by
   wc_step2 hc ha hi h [stepLdClosed]
 
@@ -149,6 +153,10 @@ theorem wd_swapFlag {s s' : State} {r : Role} (hi : WD s) (h : stepSwapFlag s r 
 set_option maxHeartbeats 4000000 in
 theorem wd_spin {s s' : State} {r : Role} (hi : WD s) (h : stepSpin s r = some s') : WD s' := by
   wd_step2 hi h [stepSpin]
+
+set_option maxHeartbeats 4000000 in
+theorem wd_deadline {s s' : State} {r : Role} (hi : WD s) (h : stepDeadline s r = some s') : WD s' := by
+  wd_step2 hi h [stepDeadline]
 
 set_option maxHeartbeats 4000000 in
 theorem wd_ldClosed {s s' : State} {r : Role} (hi : WD s) (h : stepLdClosed s r = some s') : WD s' := by
